@@ -16,7 +16,7 @@ RULE = (
     'the first recorded error object iff raise_if_any. Non-trivial = >= 1 raising handler next to >= 1 other handler '
     'of the same event; distinct by canonical JSON.'
 )
-ASSUMPTIONS = ['virtual time', 'one scenario in five has event timeouts; handlers cut off by them are not judged here (C10), handlers that raised on their own are', 'no stop()']
+ASSUMPTIONS = ['virtual time', 'one scenario in five has event timeouts; handlers cut off by them are not judged here (C10), handlers that raised on their own are', 'no stop()', 'declared result types, where generated, admit every ordinary harness return value (int | str | None)']
 
 from hypothesis import strategies as _st
 
@@ -36,8 +36,20 @@ def budget(tier):
     return {'examples': 6000 if tier == 'quick' else 120000, 'wall_s': 300 if tier == 'quick' else 3000, 'shrink_s': 60}
 
 
+@_st.composite
+def _typed(draw):
+    # a third of the scenarios: some event types declare a result type that every ordinary return value conforms to
+    # (int | str | None); an exception object a handler returns must still end as that handler's error, the same object
+    sc = draw(scenario(P))
+    if draw(_st.integers(0, 2)) == 0:
+        rt = {str(t): 'ius' for t in range(4) if draw(_st.booleans())}
+        if rt:
+            sc = dict(sc, rtypes=rt)
+    return sc
+
+
 def strategy(tier):
-    return scenario(P)
+    return _typed()
 
 
 def _raisers(F):
@@ -69,6 +81,9 @@ def classes(F):
                 break
     if any(h.get('ret') == 'excobj' for h in F.sc['handlers']):
         cl.append('returns-exception-object')
+        rt = F.sc.get('rtypes') or {}
+        if any(str(F.etype.get(e)) in rt and F.sc['handlers'][h].get('ret') == 'excobj' for (_b, e, h) in F.enters):
+            cl.append('exception-object-returned-on-typed-event')
     if any(op[0] == 'raise' and op[1] == 'TO' for h in F.sc['handlers'] for op in h['prog']):
         cl.append('raises-own-TimeoutError')
     if any(op[0] == 'raise' and op[1] == 'ITO' for h in F.sc['handlers'] for op in h['prog']):
